@@ -1491,7 +1491,7 @@ func (m *tableMachine) await(done chan struct{}, what string) bool {
 }
 
 func init() {
-	desc := "rapid: histories of 10..80 table events against a node with a crafted root ID and 10..40 simulated peers whose IDs are crafted to collide in 1-2 hot buckets (>= 12 per bucket typical), cloned IDs and cloned addresses, IPv4 / v4-mapped / IPv6, private (BEP 42 exempt) and public with secure or insecure IDs, security on in 1/4 of cases: inbound queries (own / zero / root ID, read-only flag), pings and find_node calls the peer answers with its ID / another ID / from another port / with another t / with an error / read-only / not at all (third parties named in the reply), unsolicited responses, AddNode (including the other byte representation of the same IPv4 address), ageing by 1/14/15/16/60/600 minutes, questionable pings of questionable entries (answered or not), probes, and one TableMaintainer pass as last step. "
+	desc := "rapid: histories of 10..80 table events against a node with a crafted root ID and 10..40 simulated peers whose IDs are crafted to collide in 1-2 hot buckets (>= 12 per bucket typical), cloned IDs and cloned addresses, IPv4 / v4-mapped / IPv6 (global, link-local, unique-local), one ID on two ports of one IP, private (BEP 42 exempt) and public with secure or insecure IDs, security on in 1/4 of cases: inbound queries (own / zero / root ID, read-only flag), pings and find_node calls the peer answers with its ID / another ID / from another port / with another t / with an error / read-only / not at all (third parties named in the reply), unsolicited responses, AddNode (including the other byte representation of the same IPv4 address), ageing by 1/14/15/16/60/600 minutes, questionable pings of questionable entries (answered or not), probes, and one TableMaintainer pass as last step; under the C06 bias also a vetoing or allowing query hook and answers that arrive after their query's context was cancelled and the call had returned; under the C09 bias read-only queries from known contacts, the node's own find_node calls as liveness evidence, probes sent from the address and under the ID of a table entry, and (with the bundled peer store) a peer of one family announcing itself for the probed infohash first. "
 	kit.Register("C05a", desc+"Oracle after every step (quiescence barrier, table snapshot hook): stored bucket = shared-prefix length with the root by an independent bit scan; <= 8 per bucket; no two entries equal in (ID, address); never the root or zero ID; address index mirrors the buckets; NumNodes / Stats().Nodes = entry count; Stats().GoodNodes and the package's good/bad/questionable verdicts = an independent BEP 5 classification of the raw timestamps; Nodes() = multiset of non-bad entries; WriteStatus header agrees. Non-trivial: a full bucket received a newcomer that displaced an entry, or an entry was dropped.",
 		[]string{"ageing is done by shifting stored timestamps (VerifAge hook), in whole minutes, so no classification is within a minute of the 15-minute bound"},
 		func(t *rapid.T) TableSc { return genTable(t, "c05") }, func(sc TableSc, c *kit.Case) *kit.Violation { return runTable(sc, c, "C05") })
